@@ -48,7 +48,8 @@ def scn(sym, cov, props, D, T=2, cancel=None, cancel2=None, toggle=None, stubbor
     deadline_outside: 'before' assigns the level-0 deadline through the setter BEFORE the scope is entered,
         'after' assigns a finite deadline to the level-0 scope AFTER it has been left
     raise_at: (level, kind): the level's post-operation is replaced by raising -- 'value' a ValueError, 'group' an
-        ExceptionGroup holding only a ValueError, 'group+cancel' sleep(post) and, if that is interrupted, a
+        ExceptionGroup holding only a ValueError, 'foreign-chain' sleep(post) and, if that is interrupted, an OSError during
+        whose handling a CancelledError not tagged by any cancel scope is raised, 'group+cancel' sleep(post) and, if that is interrupted, a
         BaseExceptionGroup holding the cancellation exception and a ValueError"""
     import anyio
     from anyio import CancelScope
@@ -181,15 +182,27 @@ def scn(sym, cov, props, D, T=2, cancel=None, cancel2=None, toggle=None, stubbor
                         if kind == "group":
                             ex["raised"] = "group"
                             raise ExceptionGroup("g", [ValueError("boom")])
-                        try:
-                            await op(i, "post", post[i])
-                        except asyncio.CancelledError as cexc:
-                            ex["raised"] = "group+cancel"
-                            raise BaseExceptionGroup("g", [cexc, ValueError("boom")])
+                        if kind == "foreign-chain":
+                            # cleanup after an AnyIO cancellation hits an error; while that error is being handled a
+                            # cancellation that does NOT come from a cancel scope is raised
+                            try:
+                                await op(i, "post", post[i])
+                            except asyncio.CancelledError:
+                                try:
+                                    raise OSError("cleanup failed")
+                                except OSError:
+                                    state["foreign_exc"] = asyncio.CancelledError("not from a cancel scope")
+                                    raise state["foreign_exc"]
+                        else:
+                            try:
+                                await op(i, "post", post[i])
+                            except asyncio.CancelledError as cexc:
+                                ex["raised"] = "group+cancel"
+                                raise BaseExceptionGroup("g", [cexc, ValueError("boom")])
                     else:
                         await op(i, "post", post[i])
-                except asyncio.CancelledError:
-                    ex["raised"] = "cancel"
+                except asyncio.CancelledError as cexc_:
+                    ex["raised"] = "foreign" if cexc_ is state.get("foreign_exc") else "cancel"
                     raise
                 finally:
                     ex["cexit"], ex["texit"] = now()
@@ -432,6 +445,13 @@ def scn(sym, cov, props, D, T=2, cancel=None, cancel2=None, toggle=None, stubbor
                     bad("C04", "cancelled_caught-wrong", {"level": i, "caught": ex["caught"], "passed": ex["passed"]})
             cov.hit("scope-absorbed-own-cancel", not ex["passed"])
             cov.hit("cancel-passed-through-inner-scope", ex["passed"])
+        elif ex["raised"] == "foreign":
+            # a cancellation exception that does not stem from any cancel scope is not an AnyIO cancellation
+            if not ex["passed"]:
+                bad("C04", "foreign-cancellation-absorbed", {"level": i, "own": own, "chain": "CancelledError <- OSError <- AnyIO cancellation"})
+            if ex["caught"]:
+                bad("C04", "cancelled_caught-although-nothing-absorbed", {"level": i, "kind": "foreign"})
+            cov.hit("foreign-cancellation-through-cancelled-scope", own)
         elif ex["raised"] in ("value", "group", "from-inner:value", "from-inner:group"):
             # exceptions other than AnyIO cancellations always pass through, and absorb nothing
             if not ex.get("passed_value"):
